@@ -137,7 +137,13 @@ impl Check for Identity {
     type Cfg = Cfg;
     type Step = Step;
     fn id(&self) -> &'static str { "identity" }
-    fn runs(&self, tier: Tier) -> u64 { if tier == Tier::Quick { 300 } else { 20_000 } }
+    fn runs(&self, tier: Tier) -> u64 {
+        if tier == Tier::Quick {
+            10000
+        } else {
+            200000
+        }
+    }
     fn components(&self) -> serde_json::Value {
         serde_json::json!({"real": ["identity_verifier::storage::{verify_identity, validate_claim}", "claim_topics_and_issuers::storage", "identity_registry_storage (add_identity, stored_identity)", "identity_claims (add/remove/get)", "claim_issuer helpers: key registry, expiry, revocation, nonce, Ed25519Verifier", "host ed25519_verify"], "stub": ["none (signatures are produced with ed25519-dalek in the harness)"]})
     }
